@@ -23,13 +23,16 @@ G = {}
 SENTINEL = ("sentinel", "earlier entry", None)
 
 
-HOSTILE_WORDS = ["{A}", "{0}", "%s", "%(x)s", "{", "}}", "\\N{X}", "${x}", "<b>", "a&b", "'q\"", "{:>9}", "%", "\\", "{a.b}", "[0]", "e\u0301"]
+HOSTILE_WORDS = ["{A}", "{0}", "%s", "%(x)s", "{", "}}", "\\N{X}", "${x}", "<b>", "a&b", "'q\"", "{:>9}", "%", "\\", "{a.b}", "[0]", "e\u0301",
+                 # one word each: characters whose COMPATIBILITY decomposition starts with a space (spacing accents), ligatures, wide forms
+                 "L\u00b4\u00e9tude", "na\u00a8ive", "x\u00afy", "fa\u00b8ade", "\u0384\u03b1", "a\u02d8b", "\ufb01eld", "\uff21\uff22", "km\u00b2", "\u2460\u2461"]
 
 
 def words(n, seed=0):
     """n words; when G['hostile'] is set, words that mean something to str.format, %-formatting, templates, XML"""
     pool = HOSTILE_WORDS if G.get("hostile") else ["alpha", "beta", "gamma", "delta", "x", "long-word", "été", "data"]
-    return " ".join(pool[(i + seed) % len(pool)] for i in range(n))
+    off = G.get("hostile_off", 0) if G.get("hostile") else 0          # (which hostile words a text starts with rotates from tree to tree)
+    return " ".join(pool[(i + seed + off) % len(pool)] for i in range(n))
 
 
 def party(el, userId="orcid", email=True, given=True):
@@ -347,6 +350,7 @@ def w_profiles(idx):
         Node.store.clear()
         p = G["profiles"][i]
         G["hostile"] = (i % 4 == 1)
+        G["hostile_off"] = i // 4
         root = build(p, t, i)
         try:
             validate.tree(root)
